@@ -252,7 +252,12 @@ func (gb GenBank) String() string {
 	for _, ref := range gb.Fields.References {
 		b.WriteString(fmt.Sprintf("REFERENCE   %d", ref.Number))
 		if ref.Info != "" {
-			pad := strings.Repeat(" ", 3-len(strconv.Itoa(ref.Number)))
+			width := 3 - len(strconv.Itoa(ref.Number))
+			if width < 0 {
+				// Reference numbers of four or more digits leave no padding.
+				width = 0
+			}
+			pad := strings.Repeat(" ", width)
 			b.WriteString(pad + ref.Info)
 		}
 		b.WriteByte('\n')
